@@ -6,7 +6,7 @@ the stored mass becomes 0. NOTE: no Δt anywhere — the trapped series is in th
 namespace OW.Kernels.StorageTrapAll
 open OW
 
-/-- trapped series; `none` = the Go code panics (index 0 of an empty series) -/
+/-- trapped series; `none` = empty series: there is no element 0, the code returns the stored mass unchanged -/
 def trapped {α} [Num α] (inflowMass : List α) (initialStoredMass : α) : Option (List α) :=
   match inflowMass with
   | [] => none
@@ -19,7 +19,7 @@ def model {α} [Num α] : KModel α where
     match p, ins, st with
     | [], [a, _b, _c, _d], [sm] =>
       match trapped a sm with
-      | none => .error "index-out-of-range"
+      | none => .ok { outputs := [[], []], states := [sm], tags := ["trapall-empty"] }
       | some t => .ok { outputs := [t, zeros a.length], states := [0.0], tags := ["trapall"] }
     | _, _, _ => .error "arity"
 
